@@ -52,19 +52,19 @@ def run_case(c):
             res['query'] = {'error': EN.canon_error(e)}
         # files
         inp, joinp = os.path.join(d, 'in.csv'), os.path.join(d, 'jt.csv')
+        in_bytes = c['csv_in'].encode('utf-8')
         with open(inp, 'wb') as f:
-            f.write(csv_bytes(hdr, A))
+            f.write(in_bytes)
         if B is not None:
             with open(joinp, 'wb') as f:
-                f.write(csv_bytes(hdrB, B))
+                f.write(c['csv_join'].encode('utf-8'))
         qf = q.replace(' b on ', ' %s on ' % joinp)
         # 3. query_csv file to file
         outp = os.path.join(d, 'out.csv')
         try:
             w3 = []
             rbql.query_csv(qf, inp, ',', 'quoted', outp, ',', 'quoted', 'utf-8', w3, True)
-            t = parse_simple(open(outp, 'rb').read().decode('utf-8'))
-            res['query_csv'] = {'header': t[0] if t else None, 'rows': t[1:], 'error': None}
+            res['query_csv'] = {'text': open(outp, 'rb').read().decode('utf-8'), 'delim': ',', 'error': None}
         except Exception as e:
             res['query_csv'] = {'error': EN.canon_error(e)}
         # 4./5. command line: file -> file, stdin -> stdout, --out-format input / csv / tsv
@@ -74,7 +74,7 @@ def run_case(c):
                                                   ('cli_stdio', [], True, ','),
                                                   ('cli_stdio_tsv', ['--out-format', 'tsv'], True, '\t'),
                                                   ('cli_file_csv', ['--input', inp, '--out-format', 'csv'], False, ',')):
-            p = subprocess.run(base + extra, input=csv_bytes(hdr, A) if use_stdin else None, stdout=subprocess.PIPE, stderr=subprocess.PIPE, env=env, cwd=d, timeout=120)
+            p = subprocess.run(base + extra, input=in_bytes if use_stdin else None, stdout=subprocess.PIPE, stderr=subprocess.PIPE, env=env, cwd=d, timeout=120)
             so = p.stdout.decode('utf-8')
             se = p.stderr.decode('utf-8')
             if '--output' in extra:
@@ -83,9 +83,8 @@ def run_case(c):
             else:
                 tab = so
                 stdout_clean = True
-            t = parse_simple(tab, fmt_delim)
             se_lines = [l for l in se.split('\n') if l]
-            res[name] = {'rc': p.returncode, 'header': t[0] if t else None, 'rows': t[1:], 'stdout_clean': stdout_clean,
+            res[name] = {'rc': p.returncode, 'text': tab, 'delim': fmt_delim, 'stdout_clean': stdout_clean,
                          'stderr_first': se_lines[0][:40] if se_lines else None,
                          'stderr_kinds': sorted(set('error' if l.startswith('Error [') else 'warning' if l.startswith('Warning: ') else 'other' for l in se_lines)),
                          'stdout_len_on_failure': len(so) if p.returncode != 0 else 0}
@@ -113,8 +112,7 @@ def run_case(c):
             o7 = os.path.join(d, 'o7.csv')
             rbql_sqlite.query_sqlite_to_csv(q, con, 't1', o7, ',', 'quoted', 'utf-8', [])
             con.close()
-            t = parse_simple(open(o7, 'rb').read().decode('utf-8'))
-            res['sqlite'] = {'header': t[0] if t else None, 'rows': t[1:], 'error': None}
+            res['sqlite'] = {'text': open(o7, 'rb').read().decode('utf-8'), 'delim': ',', 'error': None}
         except Exception as e:
             res['sqlite'] = {'error': EN.canon_error(e)}
         return res
